@@ -21,7 +21,7 @@ from vlib import core, modelgen, editgen, xsdval
 from props import c02
 
 PID = 'C04'
-TRANSLATORS = ['xsd_table']
+TRANSLATORS = ['xsd_table', 'sync_calls']
 LEAN_MODULES = ['Pyc.Model.Sync', 'Pyc.Model.Schema']
 LEAN_PROPS = ['Pyc.Props.C04', 'Pyc.Props.C04b', 'Pyc.Props.C04c']
 META = dict(
